@@ -59,11 +59,16 @@ func (l *Lexer) nextInsideToken() token.Token {
 
 	l.skipWhitespace()
 
+	// a token belongs to the line it starts on; l.curLine moves on as soon
+	// as the character after the token is a newline
+	line := l.curLine
+
 	if l.inComment && (l.ch == '"' || l.ch == '`' || l.ch == '#') {
 		// the text of a comment tag is not code: a quote or a # in it must
 		// not swallow the closing %>
 		tok = l.newToken(token.ILLEGAL)
 		l.readChar()
+		tok.LineNumber = line
 		return tok
 	}
 
@@ -82,7 +87,9 @@ func (l *Lexer) nextInsideToken() token.Token {
 			tokSplit := strings.Split(tok.Literal, ".")
 			switch {
 			case len(tokSplit) > 2:
-				return l.newIllegalTokenLiteral(token.ILLEGAL, tok.Literal)
+				tok = l.newIllegalTokenLiteral(token.ILLEGAL, tok.Literal)
+				tok.LineNumber = line
+				return tok
 			case len(tokSplit) == 2:
 				tok.Type = "FLOAT"
 			default:
@@ -90,7 +97,7 @@ func (l *Lexer) nextInsideToken() token.Token {
 			}
 
 			// readNumber already stands on the character after the number
-			tok.LineNumber = l.curLine
+			tok.LineNumber = line
 			return tok
 		}
 		tok = l.newToken(token.DOT)
@@ -209,20 +216,22 @@ func (l *Lexer) nextInsideToken() token.Token {
 		if isLetter(l.ch) {
 			tok.Literal = l.readIdentifier()
 			tok.Type = token.LookupIdent(tok.Literal)
-			tok.LineNumber = l.curLine
+			tok.LineNumber = line
 			return tok
 		} else if isDigit(l.ch) {
 			tok.Literal = l.readNumber()
 			tokSplit := strings.Split(tok.Literal, ".")
 			switch {
 			case len(tokSplit) > 2:
-				return l.newIllegalTokenLiteral(token.ILLEGAL, tok.Literal)
+				tok = l.newIllegalTokenLiteral(token.ILLEGAL, tok.Literal)
+				tok.LineNumber = line
+				return tok
 			case len(tokSplit) == 2:
 				tok.Type = "FLOAT"
 			default:
 				tok.Type = "INT"
 			}
-			tok.LineNumber = l.curLine
+			tok.LineNumber = line
 			return tok
 		} else {
 			tok = l.newToken(token.ILLEGAL)
@@ -230,7 +239,7 @@ func (l *Lexer) nextInsideToken() token.Token {
 	}
 
 	l.readChar()
-	tok.LineNumber = l.curLine
+	tok.LineNumber = line
 	return tok
 }
 
